@@ -146,7 +146,7 @@ func typedCase(ctx context.Context, rep *mon.Reporter, rng *mon.Rand, cfg mon.Co
 // spansCase: a typed spec run with callback handlers that derive the context (spans_test.go).
 func spansCase(ctx context.Context, rep *mon.Reporter, rng *mon.Rand, cfg mon.Config, j int64) {
 	focus := focuses[int(j)%len(focuses)]
-	mode := spanModes[int(j/int64(len(focuses)))%len(spanModes)]
+	mode := spanModes[int(j)%len(spanModes)] // 3 modes x 7 focuses: every pair within 21 cases
 	var g *tGraph
 	for try := 0; ; try++ {
 		g = genTyped(rng, focus, cfg.Thorough())
